@@ -169,6 +169,30 @@ theorem runRaw_total {ic : ICfg} {cfg : Cfg} {rs : List RawLine} {ls : List L} (
     ∃ m, runRaw ic cfg rs = .ok m := by
   unfold runRaw; rw [h]; exact Machine.run_total cfg ls
 
+/-- Since fix d6cf9d0 (`truncateAssertsWideCluster = false`, read from the source on every run) every line is
+ingested, whatever the widths of its clusters … -/
+theorem ingestItems_isSome (hno : Generated.StyleTables.truncateAssertsWideCluster = false) (ic : ICfg) (r : RawLine) :
+    ∃ o, ingestItems ic r = some o := by
+  unfold ingestItems
+  split
+  · exact truncate_isSome hno _ _ _ _
+  · exact ⟨_, rfl⟩
+
+theorem ingestAll_isSome (hno : Generated.StyleTables.truncateAssertsWideCluster = false) (ic : ICfg)
+    (rs : List RawLine) : ∃ ls, ingestAll ic rs = some ls := by
+  induction rs with
+  | nil => exact ⟨[], rfl⟩
+  | cons r rs ih =>
+    obtain ⟨o, ho⟩ := ingestItems_isSome hno ic r
+    obtain ⟨ls, hls⟩ := ih
+    exact ⟨{ r.facts with raw := flatten o, text := textOf o } :: ls, by simp only [ingestAll, toL, ho, Option.map_some, hls]⟩
+
+/-- … and `delta` on raw lines ends without panic, unconditionally. -/
+theorem runRaw_total_any (hno : Generated.StyleTables.truncateAssertsWideCluster = false) (ic : ICfg) (cfg : Cfg)
+    (rs : List RawLine) : ∃ m, runRaw ic cfg rs = .ok m := by
+  obtain ⟨ls, hls⟩ := ingestAll_isSome hno ic rs
+  exact runRaw_total hls
+
 /-! ### whole runs -/
 
 /-- unified hunk of a git diff -/
